@@ -81,6 +81,7 @@ func runCacheCase(cs cCase) []cRes {
 		opts.PrunePostFn = func(string, int) { post++ }
 	}
 	c = New[string, int](opts)
+	gBase := runtime.NumGoroutine()
 	out := []cRes{}
 	for _, ev := range cs.Events {
 		mu.Lock()
@@ -100,6 +101,14 @@ func runCacheCase(cs cCase) []cRes {
 				}
 			}()
 			switch ev.Op {
+			case "set_nw":
+				// a Set whose count prune is not waited for: the following events race with it
+				c.Set(ev.K, ev.V)
+			case "quiesce":
+				deadline := time.Now().Add(5 * time.Second)
+				for runtime.NumGoroutine() > gBase && time.Now().Before(deadline) {
+					time.Sleep(200 * time.Microsecond)
+				}
 			case "set":
 				c.Set(ev.K, ev.V)
 				if ev.AgeMS != 0 {
@@ -118,7 +127,9 @@ func runCacheCase(cs cCase) []cRes {
 					r.Err = true
 				}
 			case "delete":
+				mu.Lock()
 				fails[ev.K] = !ev.OK
+				mu.Unlock()
 				r.Err = c.Delete(ev.K) != nil
 			case "delete_set":
 				// a Set of the same key lands while Delete's cleanup runs (the mutex is released there)
@@ -154,9 +165,9 @@ func runCacheCase(cs cCase) []cRes {
 		}
 		keys, _ := c.List()
 		sort.Strings(keys)
+		r.Timer = c.VerifTimerSet() // (not under mu: a racing prune holds the cache mutex while its callback takes mu)
 		mu.Lock()
 		r.Keys, r.Calls, r.Pre, r.Post = keys, calls, pre, post
-		r.Timer = c.VerifTimerSet()
 		mu.Unlock()
 		out = append(out, r)
 	}
